@@ -1,0 +1,20 @@
+//go:build verif
+
+package factory
+
+import (
+	"github.com/go-kid/ioc/container"
+)
+
+// NewWithRegistries builds the ordinary default factory around caller-supplied
+// registries. It exists only under the `verif` build tag so that a verification
+// harness can wrap the real registries (call tracing, explicit enumeration
+// order); behaviour is otherwise identical to Default().
+func NewWithRegistries(dr container.DefinitionRegistry, scr container.SingletonComponentRegistry) container.Factory {
+	return &defaultFactory{
+		definitionRegistry:                dr,
+		singletonComponentRegistry:        scr,
+		postProcessorRegistrationDelegate: NewPostProcessorRegistrationDelegate(),
+		allowCircularReferences:           true,
+	}
+}
